@@ -616,7 +616,12 @@ class Engine(
                     extra_columns = list(extra_columns)
                     self.handle_empty_columns(extra_columns)
                 columns_available = payload.columns_available
-                columns_projected = {tag: columns_available[tag] for tag in select.columns}
+                # UNION [ALL] matches the columns of its operands by position,
+                # while equal column sets need not iterate in the same order;
+                # always list them in a canonical order.
+                columns_projected = {
+                    tag: columns_available[tag] for tag in sorted(select.columns, key=self.get_identifier)
+                }
                 executable = self.select_items(columns_projected.items(), payload.from_clause, *extra_columns)
                 if len(payload.where) == 1:
                     executable = executable.where(payload.where[0])
